@@ -114,7 +114,7 @@ def run(R, env):
         hk = h.body.key
 
         def is_reward(t):
-            return t[0] == "field" and t[2] == "amount" and shared.funds_coin(prog, t[1])
+            return shared.is_reward(prog, t)
 
         def is_net(t):
             if t[0] != "payload":
